@@ -13,6 +13,7 @@ from .. import sanit, compmon, gen, monitor
 from ..common import rng_for, split
 from ..oracle import stft_ref as R
 
+OPTIMIZED_SHARDS = 1  # shards run once more in an interpreter started with -O (vf/run.py)
 LEVEL = "exploration"
 TECHNIQUE = "runtime monitor on STFT compute_full with an independent full-DFT reference model (DFT size observed through a construction spy); write sanitizer on inputs"
 RULE = (
